@@ -9,6 +9,17 @@ real zero-argument `super()` calls: level d of a chain is
             super().step([*args, **kw])         # only if the level calls super
 
 The exhaustive part enumerates every chain of depth <= 4 (781 shapes) under three call patterns.
+
+Multiple inheritance (`cdef` / `mnew` lines): class K of a scenario is
+
+    class K<k>(<bases: Model | K<j> …>):      # no bases at all = a plain mixin class
+        def step(self[, *args, **kw]):
+            BODY(self, k, <args>)               # records (k, self.steps, args): bodies are labelled by class id
+            super().step([*args, **kw])
+
+built with Python's own C3 linearisation; the answer to `cdef` carries `K.__mro__` (ids, up to `Model`), which the Lean
+model recomputes.  Every class graph of <= 3 classes (160 shapes) is enumerated on every run, under every choice of
+which classes define `step`.
 """
 from __future__ import annotations
 
@@ -23,19 +34,26 @@ THEOREMS = ["Mesa.Steps." + t for t in (
     "C05_increments_exactly_once", "C05_increment_before_user_code", "C05_bodies_are_override_chain",
     "C05_most_derived_override_runs_first", "C05_next_body_only_through_super", "C05_not_overridden_only_counter",
     "C05_arguments_unchanged", "C05_run_model_exact", "C05_run_model_terminates", "C05_instances_independent",
-    "C05_all_interleavings_count")]
+    "C05_all_interleavings_count", "C05_class_tables_are_linearisations", "C05_mro_is_c3_linearisation",
+    "C05_single_inheritance_mro_is_the_chain", "C05_each_class_body_once_in_mro_order",
+    "C05_nested_calls_are_ordinary_calls", "C05_nested_run_is_ordinary_calls")]
 COUNTS = {"quick": 600, "thorough": 80000}
 EXHAUSTIVE = {"quick": True, "thorough": True}
 TRUSTED = [
     "Python attribute lookup: an instance attribute (`self.step = self._wrapped_step`) shadows the class attribute; `super().step` resolves along the class MRO and never to the instance attribute",
-    "single-inheritance chains below mesa.Model; step bodies are `record; [super().step(...)]`; multiple inheritance, metaclasses and step bodies that re-enter self.step() are not modelled",
+    "the MRO is Python's C3 linearisation (typeobject.c); the model recomputes it (Model/StepMro.lean) and every `cdef` answer compares the two; `object` is left implicit",
+    "step bodies are `record; [sub_model.step()]; [super().step(...)]`; metaclasses, `__init_subclass__`, classes that reach Model without calling Model.__init__ and step bodies that re-enter self.step() are not modelled",
     "a positional-argument mismatch raises TypeError before the callee's body runs",
 ]
 ASSUMPTIONS = ["run_model is only called on models whose step eventually clears `running` (the harness stop rule); otherwise it does not terminate, as specified",
                "Model.__init__ runs exactly once per instance"]
-RULE = ("exhaustive: every chain of depth 0-4 with per level {inherits | overrides x calls-super x takes-args} (781 shapes), each under 3 "
-        "call patterns on two interleaved instances (plain calls / calls with 1-2 positional or keyword arguments / run_model with "
-        "re-arming); random: chains of depth 0-6, 1-3 classes, 1-4 instances, 5-25 interleaved step/run/rearm/halt ops; "
+RULE = ("exhaustive: every chain of depth 0-4 with per level {inherits | overrides x calls-super x takes-args} (781 shapes), each under 4 "
+        "call patterns on two or three interleaved instances (plain calls / calls with 1-2 positional or keyword arguments / run_model with "
+        "re-arming / coupled models: the step bodies of one model step the next, two levels deep); exhaustive: every class graph with multiple inheritance over <= 3 classes (each class over any ordered choice of "
+        "distinct earlier classes, Model or no base at all; 160 graphs x every choice of the classes that define step; thorough: also <= 4 "
+        "classes, 10 400 graphs), every Model subclass instantiated and stepped with / without an argument, run_model on the last; random: chains of "
+        "depth 0-6 or (2 in 5) class graphs of 2-7 classes with 0-3 bases (mixins, diamonds, refused definitions), 1-4 instances, 5-25 "
+        "interleaved step/run/rearm/halt ops and (1 in 8) link / unlink ops that make the bodies of one model step another; "
         "non-trivial = an overriding chain of >= 2 bodies was executed or run_model made >= 2 calls")
 
 _BASE = None
@@ -53,15 +71,52 @@ def base():
                 self.stop_at = stop_at
                 self.execs = 0
                 self.rec = []
+                self.sub = None
 
             def _body(self, depth, args):
-                self.rec.append((depth, self.steps, tuple(args)))
-                self.execs += 1
-                if self.execs >= self.stop_at:
-                    self.running = False
+                body(self, depth, args)
 
         _BASE = Base
     return _BASE
+
+
+def body(self, label, args):
+    """what a generated step body does (module-level twin of Base._body for classes that do not derive from Base)"""
+    self.rec.append((label, self.steps, tuple(args)))
+    self.execs += 1
+    if self.execs >= self.stop_at:
+        self.running = False
+    sub = getattr(self, "sub", None)
+    if sub is not None:
+        # a coupled model: this step body steps a sub-model (a nested step() call on another instance)
+        sub.rec = []
+        self.calls.append((sub.idx, sub.rec))
+        sub.step()
+
+
+def build_mi_class(k, bases, level, classes):
+    """class k with the given base ids (0 = mesa.Model); raises TypeError where Python refuses the definition"""
+    ov, cs, ta = level
+    ns = {"BODY": body}
+    names = []
+    for b in bases:
+        ns[f"K{b}"] = classes[b]
+        names.append(f"K{b}")
+    src = [f"class K{k}({', '.join(names)}):" if names else f"class K{k}:"]
+    if not ov:
+        src.append("    pass")
+    elif ta:
+        src.append("    def step(self, *args, **kw):")
+        src.append(f"        BODY(self, {k}, args + tuple(kw.values()))")
+        if cs:
+            src.append("        super().step(*args, **kw)")
+    else:
+        src.append("    def step(self):")
+        src.append(f"        BODY(self, {k}, ())")
+        if cs:
+            src.append("        super().step()")
+    exec("\n".join(src), ns)  # noqa: S102 - generated from ids and three booleans
+    return ns[f"K{k}"]
 
 
 def build_class(levels):
@@ -98,6 +153,12 @@ class Impl:
     def __init__(self):
         self.classes, self.levels, self.insts, self.cls_of = [], [], [], []
         self.trace = []
+        core.import_mesa()
+        from mesa import Model
+
+        self.Model = Model
+        self.mclasses, self.mlevels = [Model], [None]  # `cdef` classes by id; 0 = mesa.Model
+        self.calls = []  # nested step() calls of the current op, in the order they start: (instance, its records)
 
     def all(self):
         return ("steps=" + ",".join(str(m.steps) for m in self.insts)
@@ -107,21 +168,68 @@ class Impl:
     def fmt(rec):
         return ",".join(f"{d}@{s}" + ("/" + ".".join(map(str, a)) if a else "") for d, s, a in rec)
 
+    def fmt_subs(self, subs):
+        return "" if not subs else " sub=" + ";".join(f"{j}>{self.fmt(r)}" for j, r in subs)
+
     def snapshot(self):
         return [(m.steps, bool(m.running), m.execs, m.stop_at) for m in self.insts]
 
     def line(self, w):
+        """an exception the protocol does not name becomes an observation (never a harness crash), so that a broken
+        implementation yields a replayable disagreement and an oracle clause"""
+        try:
+            return self._line(w)
+        except (AssertionError, core.ScenarioTimeout):
+            raise
+        except Exception as e:  # noqa: BLE001
+            self.trace.append(("crash", " ".join(w), type(e).__name__))
+            return "err Unexpected " + type(e).__name__
+
+    def _line(self, w):
         k = w[0]
         if k == "class":
             lv = parse_levels(w[1:])
             self.levels.append(lv)
             self.classes.append(build_class(lv))
             return f"ok class={len(self.classes) - 1}"
+        if k == "cdef":
+            bases = [] if w[1] == "-" else [int(b) for b in w[1].split(",")]
+            if any(b >= len(self.mclasses) for b in bases):
+                return "bad-op"
+            level = parse_levels([w[2]])[0]
+            kid = len(self.mclasses)
+            try:
+                cls = build_mi_class(kid, bases, level, self.mclasses)
+            except TypeError:
+                return "err Type"
+            self.mclasses.append(cls)
+            self.mlevels.append(level)
+            mro = [self.mclasses.index(c) for c in cls.__mro__ if c in self.mclasses]
+            return f"ok class={kid} mro=" + ",".join(map(str, mro))
+        if k == "mnew":
+            c, stop = int(w[1]), int(w[2])
+            if c >= len(self.mclasses) or not issubclass(self.mclasses[c], self.Model):
+                return "bad-op"
+            cls = self.mclasses[c]
+            m = cls(seed=0)
+            m.stop_at, m.execs, m.rec, m.sub = stop, 0, [], None
+            self.insts.append(m)
+            m.idx, m.calls = len(self.insts) - 1, self.calls
+            self.cls_of.append(("m", c))
+            # the part of Python's MRO that can run: in front of Model
+            front = []
+            for x in cls.__mro__:
+                if x is self.Model:
+                    break
+                front.append(self.mclasses.index(x))
+            self.trace.append(("new", len(self.insts) - 1, [self.mlevels[x] for x in front], stop, self.snapshot(), front))
+            return f"ok inst={len(self.insts) - 1} || {self.all()}"
         if k == "new":
             c, stop = int(w[1]), int(w[2])
             if c >= len(self.classes):
                 return "bad-op"  # dangling reference (shrinker only); the driver says the same
             self.insts.append(self.classes[c](stop))
+            self.insts[-1].idx, self.insts[-1].calls = len(self.insts) - 1, self.calls
             self.cls_of.append(c)
             self.trace.append(("new", len(self.insts) - 1, self.levels[c], stop, self.snapshot()))
             return f"ok inst={len(self.insts) - 1} || {self.all()}"
@@ -131,6 +239,14 @@ class Impl:
         m = self.insts[i]
         before = self.snapshot()
         m.rec = []
+        del self.calls[:]
+        if k == "link":
+            j = None if w[2] == "-" else int(w[2])
+            if j is not None and not (i < j < len(self.insts)):
+                return "bad-op"
+            m.sub = None if j is None else self.insts[j]
+            self.trace.append(("link", i, before, self.snapshot()))
+            return f"ok || {self.all()}"
         if k == "step":
             args = [int(x) for x in w[2:]]
             try:
@@ -143,8 +259,9 @@ class Impl:
                 assert r is None
             except TypeError:
                 out = "err Type"
-            self.trace.append(("step", i, args, out, list(m.rec), before, self.snapshot()))
-            return f"{out} log={self.fmt(m.rec)} || {self.all()}"
+            subs = [(j, list(r)) for j, r in self.calls]
+            self.trace.append(("step", i, args, out, list(m.rec), subs, before, self.snapshot()))
+            return f"{out} log={self.fmt(m.rec)}{self.fmt_subs(subs)} || {self.all()}"
         if k == "run":
             # generated programs terminate on the correct code; the cap makes them terminate on ANY code
             # (a run_model that keeps stepping a stopped model must show as a failure, not hang the check)
@@ -167,8 +284,9 @@ class Impl:
                 return f"err Runaway || {self.all()}"
             finally:
                 m.step = orig
-            self.trace.append(("run", i, list(m.rec), before, self.snapshot()))
-            return f"ok log={self.fmt(m.rec)} || {self.all()}"
+            subs = [(j, list(r)) for j, r in self.calls]
+            self.trace.append(("run", i, list(m.rec), subs, before, self.snapshot()))
+            return f"ok log={self.fmt(m.rec)}{self.fmt_subs(subs)} || {self.all()}"
         if k == "rearm":
             m.running = True
             m.stop_at = m.execs + int(w[2])
@@ -206,17 +324,22 @@ def has_body(levels):
 
 
 def pattern(levels, which):
-    """three call patterns on two instances of the same class (interleaved)"""
+    """four call patterns on two or three instances of the same class (interleaved; the fourth nests the calls)"""
     L = ["scenario steps", fmt_class(levels)]
     hb = has_body(levels)
     if which == 0:
         L += ["new 0 9", "new 0 9", "step 0", "step 1", "step 0", "step 0", "step 1"]
     elif which == 1:
         L += ["new 0 9", "new 0 9", "step 0 5", "step 1", "step 1 3 7", "step 0 4", "step 0", "step 1 1 2", "step 0 6 8"]
-    else:
+    elif which == 2:
         L += ["new 0 3", "new 0 2", "step 1"]
         L += ["run 0", "run 0", "run 1", "rearm 0 2", "run 0", "step 1", "rearm 1 1", "run 1"] if hb else ["halt 0", "run 0", "step 1", "halt 1", "run 1"]
         L += ["step 0"]
+    else:
+        # coupled models: the bodies of model 0 step model 1, whose bodies step model 2
+        L += ["new 0 9", "new 0 9", "new 0 4", "step 1", "link 0 1", "step 0", "step 1", "link 1 2", "step 0", "step 0 5", "step 2"]
+        L += ["rearm 0 2", "run 0"] if hb else ["halt 0", "run 0"]
+        L += ["link 0 -", "step 0", "step 1"]
     return core.Scenario(L, {"exhaustive": True})
 
 
@@ -225,8 +348,120 @@ def all_shapes(max_depth=4):
         yield from itertools.product(LEVEL_OPTS, repeat=d)
 
 
+def all_base_lists(k):
+    """every ordered choice of distinct bases among the classes 0..k-1 (none = a plain mixin)"""
+    for r in range(0, k + 1):
+        yield from itertools.permutations(range(k), r)
+
+
+def all_class_graphs(n):
+    """every way to define classes 1..n, each over the classes before it (2 * 5 * 16 = 160 graphs for n = 3)"""
+    def rec(k):
+        if k > n:
+            yield []
+            return
+        for b in all_base_lists(k):
+            for rest in rec(k + 1):
+                yield [list(b)] + rest
+    yield from rec(1)
+
+
+def mi_front_levels(impl, inst):
+    """levels of the classes in front of Model in the MRO of instance `inst` (from the trace of its creation)"""
+    ev = next((e for e in impl.trace if e[0] == "new" and e[1] == inst), None)
+    return ev[2] if ev else []  # no such instance: only if the constructor raised (a broken implementation)
+
+
+def mi_scenario(defs, levels, meta):
+    """define the classes (stop at the first definition Python refuses), instantiate every Model subclass,
+    call step without / with an argument on each, run_model on the last one"""
+    impl = Impl()
+    L = ["scenario steps"]
+    for bases, lv in zip(defs, levels):
+        l = "cdef " + (",".join(map(str, bases)) or "-") + " " + lv
+        L.append(l)
+        if not impl.line(l.split()).startswith("ok"):
+            break
+    models = [k for k in range(1, len(impl.mclasses)) if issubclass(impl.mclasses[k], impl.Model)]
+    for j, k in enumerate(models):
+        l = f"mnew {k} {2 + j}"
+        L.append(l)
+        impl.line(l.split())
+    for j in range(len(models)):
+        L += [f"step {j}", f"step {j} 5", f"step {j}"]
+    if models:
+        j = len(models) - 1
+        if any(l[0] for l in mi_front_levels(impl, j)):
+            L += [f"rearm {j} 3", f"run {j}", f"run {j}", f"step {j}"]
+        else:
+            L += [f"halt {j}", f"run {j}", f"step {j}"]
+    return core.Scenario(L, meta)
+
+
+def mixed_levels(graph):
+    """a deterministic, varied assignment of step definitions to the classes of a graph"""
+    h = sum((i + 1) * (len(b) + 3 * sum(b)) for i, b in enumerate(graph))
+    opts = ["110", "111", "000", "100", "101", "110", "111"]
+    return [opts[(h + 3 * i) % len(opts)] for i in range(len(graph))]
+
+
 def builtin_corpus():
-    return [pattern(list(sh), w) for sh in all_shapes() for w in range(3)]
+    res = [pattern(list(sh), w) for sh in all_shapes() for w in range(4)]
+    for g in all_class_graphs(3):
+        # every choice of which classes define step (those that do call super), plus one assignment with
+        # argument-taking and non-super-calling bodies
+        for which in itertools.product(["000", "110"], repeat=len(g)):
+            res.append(mi_scenario(g, list(which), {"exhaustive": True, "mi": True}))
+        res.append(mi_scenario(g, mixed_levels(g), {"exhaustive": True, "mi": True}))
+    import sys
+    if "thorough" in sys.argv:  # builtin_corpus() is not told the tier
+        for g in all_class_graphs(4):  # 10 400 graphs
+            res.append(mi_scenario(g, ["110"] * len(g) if sum(map(len, g)) % 2 else mixed_levels(g), {"exhaustive": True, "mi": True}))
+    return res
+
+
+def gen_mi_scenario(R):
+    """random class graphs with multiple inheritance (mixins, diamonds, refused definitions), several instances"""
+    impl = Impl()
+    L = ["scenario steps"]
+
+    def emit(l):
+        L.append(l)
+        return impl.line(l.split())
+
+    for _ in range(R.choice([2, 3, 4, 5, 6, 7])):
+        n = len(impl.mclasses)
+        nb = R.choice([0, 1, 1, 1, 2, 2, 2, 3])
+        # mostly recent classes and Model: diamonds and long MROs; occasionally a duplicate base (TypeError)
+        pool = list(range(n))
+        bases = []
+        for _ in range(nb):
+            b = R.choice(pool[-3:] + [0]) if R.random() < 0.7 else R.choice(pool)
+            if b not in bases or R.random() < 0.05:
+                bases.append(b)
+        if R.random() < 0.8:
+            # a consistent order more often than not: later (more derived) classes first, Model last
+            bases.sort(reverse=True)
+        emit("cdef " + (",".join(map(str, bases)) or "-") + " " + R.choice(LEVEL_OPTS + ["110", "111", "110"]))
+    if R.random() < 0.3:
+        emit(fmt_class([R.choice(LEVEL_OPTS + ["110"]) for _ in range(R.choice([1, 2, 3]))]))  # a plain chain beside them
+    models = [k for k in range(1, len(impl.mclasses)) if issubclass(impl.mclasses[k], impl.Model)]
+    insts = []
+    for _ in range(R.choice([1, 2, 2, 3, 4])):
+        if models and (not impl.classes or R.random() < 0.8):
+            k = R.choice(models[-3:] if R.random() < 0.6 else models)
+            emit(f"mnew {k} {R.choice([1, 2, 3, 5, 8])}")
+            hb = any(l[0] for l in mi_front_levels(impl, len(impl.insts) - 1))
+        elif impl.classes:
+            emit(f"new 0 {R.choice([1, 2, 3, 5, 8])}")
+            hb = any(l[0] for l in impl.levels[0])
+        else:
+            continue
+        insts.append({"hb": hb})
+    if not insts:
+        return core.Scenario(L, {"mi": True})
+    L += gen_ops(R, insts)
+    return core.Scenario(L, {"mi": True})
 
 
 def gen_scenario(R):
@@ -245,10 +480,22 @@ def gen_scenario(R):
         c = R.randrange(ncls)
         insts.append({"c": c, "hb": has_body(shapes[c]), "running": True})
         L.append(f"new {c} {R.choice([1, 2, 3, 5, 8])}")
+    L += gen_ops(R, insts)
+    return core.Scenario(L, {})
+
+
+def gen_ops(R, insts):
+    L = []
+    ninst = len(insts)
     for _ in range(R.randrange(5, 26)):
         i = R.randrange(ninst)
         x = insts[i]
         k = R.random()
+        if ninst >= 2 and R.random() < 0.12:
+            # couple two models: from now on the step bodies of the earlier one step the later one (or uncouple)
+            a = R.randrange(ninst - 1)
+            L.append(f"link {a} {R.randrange(a + 1, ninst)}" if R.random() < 0.8 else f"link {a} -")
+            continue
         if k < 0.55:
             na = R.choice([0, 0, 0, 1, 1, 2])
             L.append(" ".join(["step", str(i)] + [str(R.randrange(0, 9)) for _ in range(na)]))
@@ -265,12 +512,12 @@ def gen_scenario(R):
             L.append(f"run {i}")
         else:
             L.append(f"step {i}")
-    return core.Scenario(L, {})
+    return L
 
 
 def generate(rng, tier, count):
     for _ in range(count):
-        yield gen_scenario(rng)
+        yield gen_mi_scenario(rng) if rng.random() < 0.4 else gen_scenario(rng)
 
 
 # --------------------------------------------------------------------------------------------
@@ -306,13 +553,30 @@ def expected_chain_ok(levels, rec, args, out):
     return bad
 
 
+def to_depths(labels, rec, bad):
+    """bodies of `cdef` classes record their class id: translate to the position in the MRO Python computed"""
+    if labels is None:
+        return rec
+    out = []
+    for d, s, a in rec:
+        if d not in labels:
+            bad.append(f"chain: the body of class {d} ran, which is not in the MRO in front of Model ({labels})")
+        else:
+            out.append((labels.index(d), s, a))
+    return out
+
+
 def oracle(sc, obs):
     bad = []
-    levels_of = {}
+    levels_of, labels_of = {}, {}
     for ev in sc.meta.get("trace") or []:
         k = ev[0]
         if k == "new":
             levels_of[ev[1]] = ev[2]
+            labels_of[ev[1]] = ev[5] if len(ev) > 5 else None
+            continue
+        if k == "crash":
+            bad.append(f"crash: `{ev[1]}` raised {ev[2]}")
             continue
         if k == "runaway":
             running0 = ev[2][ev[1]][1]
@@ -320,13 +584,34 @@ def oracle(sc, obs):
             continue
         i = ev[1]
         before, after = ev[-2], ev[-1]
+        subs = ev[-3] if k in ("step", "run") else []
+        nested = {}
+        for j, r in subs:
+            nested.setdefault(j, []).append(r)
         for j, (b, a) in enumerate(zip(before, after)):
-            if j != i and b != a:
+            if j != i and j not in nested and b != a:
                 bad.append(f"frame: `{k} {i}` changed model {j}: {b} -> {a}")
+        # a step() made from inside another model's step body is a step() like any other: counted once, on its own
+        # model, before that model's user code
+        for j, recs in nested.items():
+            if j == i:
+                bad.append(f"nested: model {i} was re-entered from its own step")
+                continue
+            if after[j][0] != before[j][0] + len(recs):
+                bad.append(f"count: {len(recs)} nested step() call(s) on model {j} during `{k} {i}` took its steps from "
+                           f"{before[j][0]} to {after[j][0]}")
+            for n, r in enumerate(recs):
+                r = to_depths(labels_of[j], r, bad)
+                for d, sj, _a in r:
+                    if sj != before[j][0] + n + 1:
+                        bad.append(f"before-user-code: body of level {d} of model {j}, in its nested call number {n + 1} during `{k} {i}`, "
+                                   f"saw steps={sj}; model {j} stood at {before[j][0]} before")
+                bad += expected_chain_ok(levels_of[j], r, (), "ok")
         s0, r0, e0, stop0 = before[i]
         s1, r1, e1, _ = after[i]
         if k == "step":
-            _, _, args, out, rec, _, _ = ev
+            _, _, args, out, rec, _, _, _ = ev
+            rec = to_depths(labels_of[i], rec, bad)
             if s1 != s0 + 1:
                 bad.append(f"count: one step() call took steps from {s0} to {s1}")
             for d, s, _a in rec:
@@ -334,7 +619,8 @@ def oracle(sc, obs):
                     bad.append(f"before-user-code: body of level {d} saw steps={s}, the call started at {s0}")
             bad += expected_chain_ok(levels_of[i], rec, args, out)
         elif k == "run":
-            _, _, rec, _, _ = ev
+            _, _, rec, _, _, _ = ev
+            rec = to_depths(labels_of[i], rec, bad)
             calls = s1 - s0
             if not r0:
                 if calls or rec:
@@ -354,7 +640,7 @@ def oracle(sc, obs):
                 per.setdefault(s, []).append((d, s, a))
             for s, r in per.items():
                 bad += expected_chain_ok(levels_of[i], r, (), "ok")
-        elif k in ("rearm", "halt"):
+        elif k in ("rearm", "halt", "link"):
             if s1 != s0:
                 bad.append(f"count: `{k}` changed steps")
     return bad
@@ -371,16 +657,25 @@ def nontrivial(sc, obs):
 
 def tags(sc, obs):
     yield "exhaustive" if sc.meta.get("exhaustive") else "random"
+    for l, o in zip(sc.lines, obs):
+        if l.startswith("cdef"):
+            yield "cdef:" + ("refused" if o.startswith("err") else "bad-op" if o == "bad-op" else f"{min(len(l.split()[1].split(',')), 3) if l.split()[1] != '-' else 0}-bases")
+            if o.startswith("ok") and len(o.split("mro=")[1].split(",")) >= 5:
+                yield "cdef:mro>=5"
     lv = {}
     for ev in sc.meta.get("trace") or []:
         if ev[0] == "new":
             lv[ev[1]] = ev[2]
             yield f"depth:{len(ev[2])}"
+            if len(ev) > 5:
+                yield "inst:multiple-inheritance"
             if not any(l[0] for l in ev[2]):
                 yield "shape:not-overridden"
             elif ev[2] and not ev[2][0][0]:
                 yield "shape:inherited-from-intermediate"
         elif ev[0] == "step":
+            if ev[5]:
+                yield "step:nested-calls:" + str(min(len(ev[5]), 4)) + ("+" if len(ev[5]) >= 4 else "")
             yield "step:" + ("args" if ev[2] else "noargs") + (":TypeError" if ev[3] != "ok" else "")
             if len(ev[4]) >= 2:
                 yield "step:super-chain"
